@@ -16,7 +16,10 @@ EXPLANATION = (
     "keys / required keys, extra-policy code matches the policy of each node (forbid: set difference + "
     "ExtraFieldsLoadError; collect: item-wise copy of exactly the unknown keys into a dict created in the body; skip: "
     "nothing), list nodes check their length against len(map), placeholders fill gaps, sieved keys are conditional, "
-    "and collected extras contain no structural keys."
+    "and collected extras contain no structural keys. Layout pipeline: a real Retort with name_mapping configurations is "
+    "asked for loaders/dumpers, the emitted programs are compared with a layout oracle written from the documentation. "
+    "Tier S: provide_schema stacks the overlays of ALL ancestors (MRO, not only the direct bases). omit_default must test "
+    "the field's value, not the output of its dumper (known finding)."
 )
 RULE = ("one evaluation = one emitted program; disagreements_checked = number of oracle comparisons (field paths, key "
         "sets, policy fragments, length checks, written keys)")
